@@ -86,7 +86,7 @@ def replay_behaviour(arg) -> dict:
     states = _parse_states(path) if isinstance(path, str) else path
     res = {"trace": os.path.basename(path) if isinstance(path, str) else "graph-path", "steps": 0, "commands": 0,
            "issues": [], "actions": [a for a, _ in states]}
-    d = bi.Dir()
+    d = bi.Dir(opts.get("names"))
     try:
         _run(d, states, res, opts)
     except Exception as e:  # noqa: BLE001 - harness trouble is reported as such, never as a violation
@@ -165,7 +165,7 @@ def _run(d: bi.Dir, states: list, res: dict, opts: dict) -> None:
             continue
         # ---------------- a command
         res["commands"] += 1
-        paths = [str(env.path(bi.PAGE_FILE[p])) for p in sorted(st["lastArg"])] if last in ("reindexPaths", "refusedReindex") else []
+        paths = [str(env.path(d.names[p])) for p in sorted(st["lastArg"])] if last in ("reindexPaths", "refusedReindex") else []
         force = (last == "create" and st["lastArg"] == [0])
 
         def run_cmd():
@@ -213,7 +213,7 @@ def _run(d: bi.Dir, states: list, res: dict, opts: dict) -> None:
             res["truncated"] = "after refused create"
             return
         prev = st
-    res["final_pages"] = len([p for p in pages if env.path(bi.PAGE_FILE[p]).exists()])
+    res["final_pages"] = len([p for p in pages if env.path(d.names[p]).exists()])
 
 
 def _canon_real(d: bi.Dir, pages):
